@@ -156,6 +156,31 @@ fn cmd_natives() -> Result<Sx, String> {
     Ok(l(v))
 }
 
+/// `(tokens FILTER)` -> the token texts of the program in order (blocks flattened, strings atomic)
+fn cmd_tokens(args: &[Sx]) -> Result<Sx, String> {
+    use jaq_core::load::lex::{Lexer, Tok, Token};
+    let code = String::from_utf8(args[0].bytes().ok_or("filter")?.to_vec()).map_err(|_| "utf8")?;
+    fn flat<'a>(ts: &[Token<&'a str>], out: &mut Vec<Sx>) {
+        for Token(text, tok) in ts {
+            match tok {
+                Tok::Block(inner) => {
+                    out.push(s(text[..1].as_bytes()));
+                    flat(inner, out);
+                }
+                _ => out.push(s(text.as_bytes())),
+            }
+        }
+    }
+    Ok(match Lexer::new(&*code).lex() {
+        Ok(ts) => {
+            let mut out = Vec::new();
+            flat(&ts, &mut out);
+            l(vec![a("ok"), l(out)])
+        }
+        Err(_) => l(vec![a("error")]),
+    })
+}
+
 fn dispatch(cmd: &str, args: &[Sx]) -> Result<Sx, String> {
     match cmd {
         "run" => cmd_run(args),
@@ -163,6 +188,7 @@ fn dispatch(cmd: &str, args: &[Sx]) -> Result<Sx, String> {
         "defs" => cmd_defs(args),
         "lut" => cmd_lut(args),
         "natives" => cmd_natives(),
+        "tokens" => cmd_tokens(args),
         _ => Err(format!("unknown command {cmd}")),
     }
 }
